@@ -133,7 +133,9 @@ pub fn gen_canonical_trace(r: &mut Rng, u: &Universe) -> String {
     for d in 0..=depth {
         let has_exc = d > 0 || r.chance(4, 5);
         let cap = if r.chance(1, 10) { 21 } else { 5 };
-        let nframes = if d == 0 && !has_exc { 1 + r.below(4) } else { r.below(cap) };
+        let long_level = r.chance(1, 25);
+        let nframes = if long_level { 33 + r.below(50) } else if d == 0 && !has_exc { 1 + r.below(4) } else { r.below(cap) };
+        let mut sites: Vec<(String, String, String)> = Vec::new();
         if d > 0 {
             s.push_str("Caused by: ");
         }
@@ -148,12 +150,16 @@ pub fn gen_canonical_trace(r: &mut Rng, u: &Universe) -> String {
         for _ in 0..nframes {
             let (c, m) = if r.chance(1, 4) { (canon_class(r, u), ident(r)) } else { canon_class_method(r, u) };
             let m = m.replace('.', "_");
-            let line = match r.below(8) {
+            let line = match r.below(9) {
                 0 => "0".to_string(),
                 1 => "18446744073709551615".to_string(),
+                8 => format!("1{:018}{}", r.next() % 1_000_000_000_000_000_000u64, r.below(10)),
                 2 | 3 if !u.numbers.is_empty() => r.pick(&u.numbers).to_string(),
                 _ => r.below(40).to_string(),
             };
+            // in long levels call sites repeat, with the same or another file
+            let (c, m, line) = if long_level && !sites.is_empty() && r.chance(1, 2) { r.pick(&sites).clone() } else { (c, m, line) };
+            sites.push((c.clone(), m.clone(), line.clone()));
             s.push_str(&format!("    at {}.{}({}:{})\n", c, m, r.pick(&["SourceFile", "Foo.java", "<unknown>", "é.kt"]), line));
         }
     }
@@ -179,6 +185,21 @@ fn gen_type(r: &mut Rng, u: &Universe, depth: usize) -> String {
 
 /// JVM method descriptors: valid ones and corruptions (C16)
 pub fn gen_signature(r: &mut Rng, u: &Universe) -> String {
+    match r.below(40) {
+        0 => {
+            // very many parameters (JVM limit is 255 slots), long/double arrays included
+            let k = *r.pick(&[127usize, 128, 129, 200, 255, 256]);
+            let t = *r.pick(&["[J", "[[D", "J", "I", "[Lx/y;"]);
+            return format!("({}){}", t.repeat(k), r.pick(&["V", "I", "[J"]));
+        }
+        1 => {
+            // deeply nested arrays
+            let k = *r.pick(&[8usize, 9, 10, 16, 17, 24, 40, 255, 256, 257, 300]);
+            let el = *r.pick(&["I", "Lx/Long;", "J"]);
+            return if r.chance(1, 2) { format!("({}{})V", "[".repeat(k), el) } else { format!("(I){}{}", "[".repeat(k), el) };
+        }
+        _ => {}
+    }
     let n = r.below(7);
     let mut s = String::from("(");
     for _ in 0..n {
